@@ -1,0 +1,15 @@
+//go:build verif
+
+// Contracts for the deductive checks under /verif (comment-only; no code).
+
+package server
+
+// ---- C42: an IPNS record is handed to the router only after it validated for the name in the URL ----
+// (validated against the name, not merely against a key the record itself carries)
+//@ func (*server).PutIPNS
+//@   prop C42
+//@   arith int-assumed
+//@   requires s != nil && r != nil
+//@   modifies all
+//@   site[validated_for_the_name_in_the_url] call:ValidateWithName : arg0 == res("call:UnmarshalRecord#0", 0) && arg1 == res("call:NameFromCid#0", 0)
+//@   site[stored_only_after_that_validation_succeeded] invoke:PutIPNS : called("call:ValidateWithName#0") && res("call:ValidateWithName#0", 0) == nil && arg2 == res("call:NameFromCid#0", 0) && arg3 == res("call:UnmarshalRecord#0", 0)
